@@ -413,3 +413,39 @@ func recvNamed(fo *types.Func) *types.Named {
 	}
 	return nil
 }
+
+// LoadCanary loads the tiny canary module (seeded violations for zero-count rules) and builds its SSA form.
+func LoadCanary(verifDir string) *Engine {
+	dir := filepath.Join(verifDir, "engine", "canary")
+	cfg := &packages.Config{
+		Mode: packages.LoadSyntax,
+		Dir:  dir,
+		Env:  append(os.Environ(), "GOFLAGS=-mod=mod", "GOPROXY=off", "GOSUMDB=off", "GOTOOLCHAIN=local", "GOWORK=off"),
+	}
+	pkgs, err := packages.Load(cfg, "./...")
+	if err != nil || len(pkgs) == 0 || len(pkgs[0].Errors) > 0 {
+		undecidedf("CHECKER-BROKEN: canary module does not load from %s: %v", dir, err)
+	}
+	c := &Engine{Repo: dir, Tier: "canary", All: map[string]*packages.Package{}, Roots: pkgs, Fset: pkgs[0].Fset}
+	for _, p := range pkgs {
+		c.All[p.PkgPath] = p
+	}
+	prog, _ := ssautil.Packages(pkgs, ssa.InstantiateGenerics)
+	prog.Build()
+	c.Prog = prog
+	c.ssaDone = true
+	return c
+}
+
+// CanaryFn returns a function of the canary package.
+func (c *Engine) CanaryFn(name string) *ssa.Function {
+	for _, sp := range c.Prog.AllPackages() {
+		if sp.Pkg.Path() == "canary" {
+			if f := sp.Func(name); f != nil {
+				return f
+			}
+		}
+	}
+	undecidedf("CHECKER-BROKEN: canary function %s not found", name)
+	return nil
+}
